@@ -10,6 +10,7 @@
 //! engine (discrete-event packet path, real std); with it, the `poolsim` engine (real worker pools
 //! under shuttle's scheduler).
 
+mod conn;
 mod gen;
 mod pkt;
 mod props;
@@ -23,6 +24,7 @@ macro_rules! for_props {
     ($m:ident) => {
         #[cfg(not(huginn_net_verif_sched))]
         {
+            $m!(props::c07::C07);
             $m!(props::c08::C08);
             $m!(props::c09::C09);
             $m!(props::c17::C17);
